@@ -1,10 +1,21 @@
 (* C16 -- operations leave no residue.  Statements only.
-   Proved: in every reachable world a handle that is not inside a call owns no
-   lock file and no temporary file (whatever happened: failed Adds, rejected
-   transactions, compactions that lost lock races, crashes of others). *)
+   [c16_ok] on EVERY schedule: no call panics; Close and Clean(modelled: Close)
+   succeed on any stack; and at every instant at which no handle is inside a
+   call -- provided no process has crashed before -- the directory contains
+   exactly tables.list (if it exists) and the tables it names: no lock file, no
+   temporary file, no unlisted table.  [C16_idle_owns_nothing]: also after
+   crashes of others, a handle that is not inside a call owns no lock file and
+   no temp file (whatever happened to its operations: failed Adds, rejected
+   transactions, compactions that lost lock races). *)
 From Coq Require Import List NArith Arith Bool.
-From RT Require Import Model.StackTrace Model.StackProto Proofs.LockProofs.
+From RT Require Import Model.StackTrace Model.StackProto Proofs.LockProofs Proofs.StackInvProofs Proofs.ResidueProofs.
 Import ListNotations.
+
+Theorem C16_quiescent_clean : forall size_oracle attempts tabs scripts sched,
+  init_ok tabs -> Forall (fun s => forallb modelled s = true) scripts ->
+  c16_ok (trace_of size_oracle attempts tabs scripts sched) = true.
+Proof. exact c16_all_traces. Qed.
+Print Assumptions C16_quiescent_clean.
 
 Theorem C16_idle_owns_nothing : forall size_oracle attempts tabs scripts sched w evs h hd,
   run size_oracle attempts (init_world tabs scripts) sched = (w, evs) ->
